@@ -893,7 +893,11 @@ async fn run_round(round: &Round, seed: u64, next_id: &mut u64, dir: &std::path:
             result.unexpected_errors.push(format!("txn {} in phase {}: {}", r.id, phase_name(ph), how));
         }
     }
-    store.pool().close().await;
+    // A transaction left open by the code under test keeps its pool connection checked out, and
+    // closing the pool would wait for it forever: only close a healthy store, and bounded.
+    if result.wedge.is_none() && result.inconclusive.is_none() {
+        let _ = tokio::time::timeout(Duration::from_secs(2), store.pool().close()).await;
+    }
     result
 }
 
